@@ -1135,7 +1135,7 @@ def c13(tier, seed):
     rng = random.Random(seed)
     jobs = []
     meta = {}
-    nscen = 16 if tier == "quick" else 300
+    nscen = 16 if tier == "quick" else 120
     for si in range(nscen):
         np_ = rng.choice([2, 3, 4, 8] if tier == "quick" else [2, 4, 8, 16])
         m = rng.choice([20, 60, 150] if tier == "quick" else [100, 400, 1000])
